@@ -7,9 +7,36 @@ from vlib.runner import Query, Report
 
 PID = 'C10'
 H = os.path.join(runner.VERIF, 'harness', 'h_c10.py')
+HS = os.path.join(runner.VERIF, 'harness', 'h_c10s.py')
+
+
+def replay_s(q, args, kwargs):
+    """symbolic-identifier companion: re-run the case on the real text through the untransformed lint()"""
+    import importlib
+    from supp.linter import lint
+    from supp.project import Project
+    case, name = args
+    hs_text = open(HS).read()
+    ns = {}
+    exec(compile(hs_text[hs_text.index('CASES = ['):hs_text.index('TREES = ')], 'cases', 'exec'), ns)
+    text, code = ns['CASES'][case]
+    ident = name if name.isidentifier() else ('_zz' if name.startswith('_') else 'zz')
+    real = text.replace('vQ', ident)
+    import ast
+    pos = sorted((n.lineno, n.col_offset) for n in ast.walk(ast.parse(real))
+                 if (isinstance(n, ast.Name) and n.id == ident and isinstance(n.ctx, ast.Store)) or
+                 (isinstance(n, ast.arg) and n.arg == ident))
+    got = sorted(r[:4] for r in lint(Project(['/nonexistent-root']), real, 'f.py') if r[0] in ('W01', 'W02'))
+    want = sorted(('W01', 'Unused name: ' + ident, l, c) for l, c in pos) if code and not ident.startswith('_') else []
+    if got == want:
+        return {'violated': False}
+    return {'violated': True, 'known': None, 'what': 'lint reports %r, the rule gives %r for\n%s' % (got, want, real),
+            'replay': {'s_args': args}}
 
 
 def replay(q, args, kwargs):
+    if q.meta.get('h') == 's':
+        return replay_s(q, args, kwargs)
     h = runner.load_module(H, 'h_c10_native')
     scope, kind, name, read, dotted = args
     bad = h.problems(scope, kind, name, bool(read), bool(dotted))
@@ -33,6 +60,10 @@ def run(tier, seed):
                         meta={}, label='E'))
     qs.append(Query('check__twin', src + '\n\n' + copy_fn(src, 'check', 'check__twin', 'scope == 2 and kind == 0 and name == 0', twin=True),
                     'check__twin', 'twin', 60))
+    ss = open(HS).read()
+    qs.append(Query('symbolic_name', ss, 'check', 'main', 300, per_path=60, meta={'h': 's'}, label='S'))
+    qs.append(Query('symbolic_name__twin', ss + '\n\n' + copy_fn(ss, 'check', 'check__twin', 'case == 0', twin=True), 'check__twin',
+                    'twin', 60, meta={'h': 's'}))
     runner.run_queries(PID, qs)
     rep.absorb(qs, replay)
     ncomb = sum(1 for s in range(6) for k in range(len(h.KINDS)) for n in range(3) for r in (False, True)
@@ -42,7 +73,8 @@ def run(tier, seed):
     rep.bounds = ['%d constructed modules: 24 binding kinds (assignment forms, walrus, for/with/except targets, comprehension variable, '
                   'def, class, import forms incl. dotted / __future__ / star, three parameter kinds) x 6 scope kinds (module, class, function, '
                   'method, lambda, nested function) x name shape (plain, underscore) x read / never read' % ncomb]
-    rep.assumptions = ['solver-enumerated (E): every path is one concrete module through the real lint()',
+    rep.bounds.append('(S) companion: 10 modules in which the identifier of the binding is ANY string of length 2 (symbolic), through the whole of lint()')
+    rep.assumptions = ['solver-enumerated (E): every path is one concrete module through the real lint(); the (S) companion uses the template tree + symbolic-container transform of C01-C03',
                        'reference: the rule in the property text evaluated on the construction (kind, scope, name shape, read flag)',
                        'locals(), global/nonlocal redirections and the real-file corpus are outside']
     rep.samples.append({'module': h.build(3, 6, 0, False, False)[0], 'expected': h.build(3, 6, 0, False, False)[1]})
@@ -55,5 +87,5 @@ def run(tier, seed):
 
 def replay_file(obj):
     class Q:
-        meta = {}
-    return report_violation(PID, replay(Q, obj['args'], {}))
+        meta = {'h': 's'} if 's_args' in obj else {}
+    return report_violation(PID, replay(Q, obj.get('s_args') or obj['args'], {}))
